@@ -61,7 +61,7 @@ pub fn gen_history(rng: &mut Rng, n: usize) -> Vec<Op> {
         ops.push(match rng.below(20) {
             0..=7 => Op::Insert { doc, author: rng.below(2), key: key(rng), content: rng.below(4) },
             8..=10 => Op::Delete { doc, author: rng.below(2), key: key(rng) },
-            11 | 12 => Op::Remote { doc, author: rng.below(3), key: key(rng), back: rng.below(4) as u64, content: if rng.chance(1, 4) { None } else { Some(rng.below(4)) } },
+            11 | 12 => Op::Remote { doc, author: rng.below(3), key: key(rng), back: [0u64, 1, 2, 3, 10, 10, 20, 30][rng.below(8)], content: if rng.chance(1, 4) { None } else { Some(rng.below(4)) } },
             13 => Op::ImportDoc(1),
             14 => Op::Policy { doc, n: rng.below(3) },
             15 => Op::Peer { doc, peer: rng.below(7) as u8 },
@@ -167,6 +167,8 @@ pub struct Obs {
     authors: BTreeSet<[u8; 32]>,
     policies: BTreeMap<NamespaceId, String>,
     peers: BTreeMap<NamespaceId, Vec<[u8; 32]>>,
+    /// per-author heads including the key they name
+    heads: BTreeMap<NamespaceId, BTreeMap<[u8; 32], (u64, Vec<u8>)>>,
 }
 
 impl Obs {
@@ -180,11 +182,12 @@ impl Obs {
 
 pub fn observe(store: &mut Store) -> anyhow::Result<Obs> {
     let ids = [namespace(1).id(), namespace(2).id()];
-    let mut o = Obs { docs: BTreeMap::new(), kinds: BTreeMap::new(), authors: BTreeSet::new(), policies: BTreeMap::new(), peers: BTreeMap::new() };
+    let mut o = Obs { docs: BTreeMap::new(), kinds: BTreeMap::new(), authors: BTreeSet::new(), policies: BTreeMap::new(), peers: BTreeMap::new(), heads: BTreeMap::new() };
     for id in ids {
         o.docs.insert(id, dump(store, id)?.values().map(|e| postcard::to_stdvec(e).unwrap()).collect());
         o.policies.insert(id, format!("{:?}", store.get_download_policy(&id)?));
         o.peers.insert(id, store.get_sync_peers(&id)?.map(|p| p.collect()).unwrap_or_default());
+        o.heads.insert(id, heads(store, id)?);
     }
     for r in store.list_namespaces()? {
         let (id, k) = r?;
